@@ -93,6 +93,11 @@ where
         let ctx = self.system.ctx();
         let addr = Self::get_valid_address(self.stack.get(12))?;
 
+        // the second word is read from addr + 1, which must be a valid address too
+        if addr == u32::MAX {
+            return Err(ExecutionError::MemoryAddressOutOfBounds(addr as u64 + 1));
+        }
+
         // load two words from memory
         let words = self.chiplets.read_mem_double(ctx, addr);
 
@@ -108,7 +113,7 @@ where
         }
 
         // increment the address by 2
-        self.stack.set(12, Felt::from(addr + 2));
+        self.stack.set(12, Felt::new(addr as u64 + 2));
 
         // copy over the rest of the stack
         self.stack.copy_state(13);
@@ -192,6 +197,11 @@ where
         let ctx = self.system.ctx();
         let addr = Self::get_valid_address(self.stack.get(12))?;
 
+        // the second word is written to addr + 1, which must be a valid address too
+        if addr == u32::MAX {
+            return Err(ExecutionError::MemoryAddressOutOfBounds(addr as u64 + 1));
+        }
+
         // pop two words from the advice stack
         let words = self.host.borrow_mut().pop_adv_stack_dword(self)?;
 
@@ -210,7 +220,7 @@ where
         }
 
         // increment the address by 2
-        self.stack.set(12, Felt::from(addr + 2));
+        self.stack.set(12, Felt::new(addr as u64 + 2));
 
         // copy over the rest of the stack
         self.stack.copy_state(13);
